@@ -17,10 +17,11 @@ EXPLANATION = (
     "k**n comparison as exactness witness), grid-point formula origins, the mixed-radix counter decided by abstract "
     "interpretation over small concrete values, write plumbing (restart -> column i to variable i -> process -> "
     "inputs/outputs by their own switches -> savetxt format/delimiter/header), header/write switch agreement, reader "
-    "skip predicate over all orderings of (line index, skip_lines) x blank x comment"
+    "skip predicate over all orderings of (line index, skip_lines) x blank x comment; the row loop gives an input its grid value iff "
+    "it is an active variable, decided for resolution 0 (one-point grid) and > 0 (G10)"
 )
 ASSUMPTIONS = ["numpy.savetxt / hstack semantics; equidistance and the printed values themselves are numeric and not decided"]
-FLOORS = {"N1": 2, "G8": 4, "W4": 8, "S4": 2, "G9": 1, "N2": 3}
+FLOORS = {"G10": 1, "N1": 2, "G8": 4, "W4": 8, "S4": 2, "G9": 1, "N2": 3}
 
 TRUNCATORS = {"int", "math.floor", "numpy.floor", "math.trunc", "numpy.trunc", "numpy.fix", "numpy.floor_divide"}
 ROOT_CALLS = {"pow", "math.pow", "numpy.power", "numpy.float_power"}
@@ -85,6 +86,7 @@ def _rounded(t: Term) -> bool:
 
 def run(check: Check) -> None:
     grid_size(check)
+    active_variables(check)
     increment(check)
     write_plumbing(check)
     header_agreement(check)
@@ -192,6 +194,85 @@ def grid_size(check: Check) -> None:
     ok = len(incs) == 1 and len(incs[0][1][2]) == 3 and not incs[0][1][3]
     check.require(ok, "N2", "FldExporter.write_from_scope/enumeration",
                   "grid points are enumerated with the mixed-radix counter starting from its default (last) position", loc(fn, incs[0][0] if incs else fn.node))
+
+
+def active_variables(check: Check) -> None:
+    """G10 [E]: in the row loop of write_from_scope, input variable i gets its grid value iff it is one of the active variables and its
+    current value otherwise - for a one-point grid (resolution 0) as for any other. One iteration is interpreted under
+    {active, not active} x {resolution = 0, resolution > 0}."""
+    from ..guards import RoleEval, simulate
+    from .common import body_entry, iter_base, loops_over
+
+    p = check.program
+    fn = p.func("FldExporter.write_from_scope")
+    r = Resolver(p, fn)
+    cfg = r.cfg
+    loops = [lp for lp in loops_over(r, lambda b: is_path(b, "engine.input_variables")) if cfg.enclosing_loops(lp[0])]
+    if not loops:
+        raise AnalysisError("FldExporter.write_from_scope: row loop over engine.input_variables not found")
+    head = loops[0][0]
+    body = cfg.loop_body(head)
+    grid, current = [], []
+    for n, c in cfg.find_calls(".append"):
+        if n not in body or not c.args:
+            continue
+        t = r.term(c.args[0], n)
+        parts = list(walk(t))
+        if any(s[0] == "attr" and s[2] == "minimum" for s in parts) and any(s[0] == "attr" and s[2] in ("drange", "maximum") for s in parts):
+            grid.append(n)
+        elif any(s[0] == "attr" and s[2] in ("value", "_value") for s in parts):
+            current.append(n)
+    if not grid or not current:
+        raise AnalysisError("FldExporter.write_from_scope: grid-value / current-value appends of the row loop not recognised")
+    res_terms = {t for n in grid for t in _resolution_terms(r, n)}
+
+    def classify(t: Term, e):
+        if t[0] == "cmp" and t[1] == ("in",) and t[2][0][0] == "elem" and is_path(iter_base(t[2][0][1])[0], "engine.input_variables") and \
+                any(s == ("param", "active_variables") for s in walk(t[2][1])):
+            return "active"
+        if t in res_terms:
+            return "res"
+        return None
+
+    rows = 0
+    bad = []
+    nondet = False
+    ev = RoleEval(r, classify)
+    for active in (True, False):
+        for res, zero in ((0, 0), (1, 0)):
+            env = {"active": active, "res": res, "const:0.0": zero, "const:1.0": 1, "const:0": zero}
+            may, must = simulate(cfg, body_entry(head), ev, env, set(grid + current), {x for x in cfg.nodes if x not in body})
+            rows += 1
+            g_may, g_must = any(n in may for n in grid), any(n in must for n in grid)
+            c_may, c_must = any(n in may for n in current), any(n in must for n in current)
+            if g_may != g_must or c_may != c_must:
+                nondet = True
+                continue
+            if g_must != active or c_must != (not active):
+                bad.append(f"{'active' if active else 'inactive'} variable, resolution {'0 (one grid point)' if res == 0 else '> 0'}: the row gets "
+                           f"{'the grid value' if g_must else 'the current value of the variable' if c_must else 'nothing'}")
+    if nondet:
+        check.violation("G10", "FldExporter.write_from_scope/active-variables", "whether an input gets its grid value depends on something other than its "
+                        f"membership in the active variables and the resolution: {sorted(set(ev.unknown_atoms))[:3]}", loc(fn, head))
+        return
+    check.require(not bad, "G10", "FldExporter.write_from_scope/active-variables",
+                  "an input variable gets its grid value iff it is active, its current value otherwise (also on a one-point grid)" if not bad else bad[0] +
+                  " (specified: grid value iff active)", loc(fn, grid[0]), {"cases": rows, "disagreements": bad}, exhaustive=True, cases=rows)
+
+
+def _resolution_terms(r: Resolver, n) -> list[Term]:
+    """The resolution as it appears in the grid-value expression: the divisor under max(1, .) / the plain divisor."""
+    out = []
+    for c in r.cfg.calls_in(n):
+        for a in c.args:
+            for s in walk(r.term(a, n)):
+                if s[0] == "binop" and s[1] == "/" and s[2][0] == "attr" and s[2][2] == "drange":
+                    d = s[3]
+                    if d[0] == "call" and d[1] == ("global", "max") and len(d[2]) == 2:
+                        out += [x for x in d[2] if x[0] != "const"]
+                    else:
+                        out.append(d)
+    return out
 
 
 def _integer_power_witness(r: Resolver, cfg, values: str) -> bool:
